@@ -36,9 +36,7 @@ def sitesList (it : Ty) (i : Nat) : OutList → List Path
 def sitesFields : FldList → List Path
   | .nil => []
   | .cons key ty _ o rest =>
-    ((match o with
-      | .raised _ _ => [[]]
-      | o' => sitesInner (innerTy ty) o' ++ (if ty.isNonNull && completesNull o' then [[]] else [])).map (Seg.key key :: ·))
+    ((sitesInner (innerTy ty) o ++ (if o.isRaised || (ty.isNonNull && completesNull o) then [[]] else [])).map (Seg.key key :: ·))
       ++ sitesFields rest
 end
 
